@@ -47,7 +47,12 @@ def docs():
 
 
 def expectations(seq):
-    return {m: R.verdict(seq, m) for m in ("pvl", "odl", "omni")}
+    out = {m: R.verdict(seq, m) for m in ("pvl", "odl", "omni")}
+    isis = T.for_dialect(seq, "ISIS")
+    if isis != seq:
+        out["isis-pvl"] = R.verdict(isis, "pvl")
+        out["isis-omni"] = R.verdict(isis, "omni")
+    return out
 
 
 def judge(acc, seq, payload, compact=False):
@@ -60,6 +65,8 @@ def judge(acc, seq, payload, compact=False):
         mode = T.MODE[d]
         v = ver[mode]
         vo = ver["omni"] if d in ("OMNI", "ISIS") else None
+        if d == "ISIS" and "isis-pvl" in ver:
+            v, vo = ver["isis-pvl"], ver["isis-omni"]
         r = loaders.outcome(d, text)
         acc.n += 1
         acc.sets["edges"].add((v[0], v[1] if v[0] != "WELL" else "", d))
@@ -126,7 +133,7 @@ def shard_damage(spec):
     di, depth, lo, hi = spec
     base = docs()[di]
     acc = Acc()
-    first = T.damage(base, T.ALPHABET20)
+    first = T.damage(base, T.ALPHABET21)
     for j, (kind, i, seq) in enumerate(first):
         if not (lo <= j < hi):
             continue
@@ -178,7 +185,7 @@ def run(ctx):
     acc = Acc()
     q = ctx.quick
     k = 4 if q else 5
-    A18 = T.ALPHABET20
+    A18 = T.ALPHABET21
     specs = []
     for n in range(1, k + 1):
         if n <= 2:
@@ -203,7 +210,7 @@ def run(ctx):
         "evaluations": acc.n, "distinct_nontrivial": acc.nontrivial,
         "states": len({(a, b) for a, b, _ in edges}), "transitions": len(edges),
         "traces_validated_against_impl": acc.traces,
-        "rule": "all token sequences of length <= %d over the 20-token alphabet (18 well-formed tokens + an unterminated quoted string + an unterminated units expression) and of length %d over a 12-token "
+        "rule": "all token sequences of length <= %d over the 21-token alphabet (18 well-formed tokens + an unterminated quoted string + an unterminated units expression + BEGIN_GROUP, which is a plain name under the ISIS grammar) and of length %d over a 12-token "
                 "core, plus %d reference documents x all single%s token damages (delete, duplicate, swap, "
                 "replace by any alphabet token, truncate); each rendered with single spaces and run on 5 loaders; "
                 "states = distinct reference verdicts (class, diagnosis), transitions = (verdict, loader) pairs "
@@ -224,7 +231,7 @@ def run(ctx):
 
 
 def _seq_from(case):
-    by_text = {t[1]: t for t in T.ALPHABET20}
+    by_text = {t[1]: t for t in T.ALPHABET21}
     return [by_text[x] for x in case["tokens"]]
 
 
